@@ -22,7 +22,11 @@ Two correspondences per run:
       queued ahead of the greeting), as the line that proves the firmware alive (`ok T:.. B:..` answering the connect
       probe, a ` T:..` auto-report), right behind it while the handshake is still running, and in answer to statements
       the caller writes; after each stage `get_parameter` on every letter, judged by the same first-value oracle over
-      the whole session and compared with the model's readings after the same lines.
+      the whole session and compared with the model's readings after the same lines.  Over the socket a share of the
+      reports reaches the host in TWO TCP segments - cut inside the line, mostly inside a number - with a pause longer
+      than the reader's `select` time-out between them (a serial-to-wifi bridge forwarding UART bytes as they trickle in,
+      a busy board pausing mid-line), at every stage of the session: it is still ONE report, judged and modelled as the
+      line the device sent.
 
 Ambient configuration: a share of the sequences of (b) is delivered with Python's `logging` configured the way an
 application tracing a session would have it (root / package / module logger at DEBUG, INFO or WARNING, a handler that
@@ -773,6 +777,101 @@ def gen_e2e_case(rng, via=None):
             "stmts": [{"stmt": t, "reply": answer()} for t in texts]}
 
 
+# ---- a report that reaches the host in two TCP segments
+# `case["splits"]` = [{"stage": k, "line": i, "cut": c, "pause": p}, …]: line i of stage k (indices of `e2e_stages`) is
+# sent as text[:c], a pause of p seconds - longer than the 0.25 s `select` time-out of the socket reader -, then the rest
+# with the newline.  Socket sessions only: the fake serial port hands over whole lines the way pyserial assembles them.
+E2E_PLACES = ["probe", "stmt", "hello", "after"]  # the order in which the generated sessions take turns
+E2E_SPLIT_PAUSE = (0.3, 0.8)
+
+
+def e2e_places(case):
+    """{place: [(stage, line index), …]} of the reports of a session"""
+    out = {p: [] for p in E2E_PLACES}
+    i = 0
+    for tag in ("hello", "probe", "after"):
+        for it in case[tag]:
+            if it[0] == "report":
+                out[tag].append((0, i))
+            i += 1
+    for k, s in enumerate(case["stmts"]):
+        out["stmt"] += [(k + 1, i) for i, it in enumerate(s["reply"]) if it[0] == "report"]
+    return out
+
+
+def e2e_cut_points(r):
+    """(cuts inside the number of a reading, other cuts inside the line) of a report's wire text: a cut c sends text[:c]
+    first.  Computed from the abstract report (the spans of the decimals of its letter / position / FS tokens).  Every
+    cut lies behind the first `:` of the report proper (behind a leading `ok`: whether a torn acknowledgement still is
+    one is the sender's business, C16) and leaves at least one non-blank character for the second segment."""
+    text = rep_line(r)
+    pos = len(r["lead"]) + (3 if r["ok"] else 0) + len(r["open"] or "")
+    body0 = pos
+    inside = set()
+    for n, t in enumerate(r["toks"]):
+        tt = tok_text(t)
+        decs = [t[2]] if t[0] == "L" else list(t[2]) if t[0] == "P" else [t[1], t[2]] if t[0] == "F" else []
+        q = tt.index(":") + 1 if decs else 0
+        for d in decs:
+            w = len(dec_text(d))
+            inside.update(range(pos + q + 1, pos + q + w))
+            q += w + 1
+        pos += len(tt) + len(r["sep"])
+    if text[body0 - len(r["open"] or ""):] != rep_body(r)[3 if r["ok"] else 0:] + r["trail"]:
+        raise core.Infra(f"cut points computed on another text than the wire's: {text!r}")
+    lo = text.index(":", body0) + 1 if ":" in text[body0:] else body0 + 1
+    hi = len(text.rstrip())
+    num = [c for c in sorted(inside) if lo <= c < hi]
+    other = [c for c in range(max(lo, 1), hi) if c not in inside]
+    return num, other
+
+
+def gen_e2e_split(rng, case, where):
+    """One split of the report at `where` = (stage, line index): inside the number of a reading two times out of three."""
+    k, i = where
+    item = e2e_stages(case)[k][1][i][1]
+    num, other = e2e_cut_points(item[1])
+    pool = num if (num and (not other or rng.random() < 0.67)) else other
+    if not pool:
+        return None
+    return {"stage": k, "line": i, "cut": rng.choice(pool), "pause": round(rng.uniform(*E2E_SPLIT_PAUSE), 2)}
+
+
+def gen_e2e_split_case(rng, place):
+    """A socket session with a report cut in two at `place` (hello / probe / after / stmt), and three times out of ten
+    a second one anywhere else in the session."""
+    while True:
+        case = gen_e2e_case(rng, via="socket")
+        places = e2e_places(case)
+        if not places[place]:
+            continue
+        first = rng.choice(places[place])
+        rest = [w for ws in places.values() for w in ws if w != first]
+        chosen = [first] + ([rng.choice(rest)] if rest and rng.random() < 0.3 else [])
+        splits = [sp for sp in (gen_e2e_split(rng, case, w) for w in chosen) if sp]
+        if splits and (splits[0]["stage"], splits[0]["line"]) == first:
+            case["splits"] = sorted(splits, key=lambda sp: (sp["stage"], sp["line"]))
+            return case
+
+
+def e2e_split_map(case):
+    return {(sp["stage"], sp["line"]): sp for sp in case.get("splits") or []} if case["via"] == "socket" else {}
+
+
+def e2e_split_tags(case):
+    """Distribution keys of the splits of a session, computed from the text"""
+    tags = []
+    stages = e2e_stages(case)
+    where = {w: p for p, ws in e2e_places(case).items() for w in ws}
+    for (k, i), sp in e2e_split_map(case).items():
+        item = stages[k][1][i][1]
+        tags += ["e2e-split-report", "e2e-split-at:" + where.get((k, i), "not-a-report"), f"e2e-split-pause:{int(sp['pause'] * 10) / 10:.1f}s"]
+        if item[0] == "report":
+            tags += ["e2e-split:" + ("inside-the-number-of-a-reading" if sp["cut"] in e2e_cut_points(item[1])[0] else "elsewhere-in-the-line"),
+                     "e2e-split-family:" + item[1]["family"]]
+    return tags
+
+
 def e2e_wire(item):
     """(kind, payload) -> the line on the wire"""
     return (rep_line(item[1]) if item[0] == "report" else item[1]) + "\n"
@@ -814,8 +913,14 @@ def e2e_letters(case):
 
 
 def e2e_repr(case):
-    return {"e2e": True, "via": case["via"],
-            "lines": {what: [e2e_wire(it) for _, it in items] for what, items in e2e_stages(case)},
+    stages = e2e_stages(case)
+    extra = {}
+    if e2e_split_map(case):
+        extra = {"splits": [dict(sp) for sp in case["splits"]],
+                 "segments": [{"after": stages[sp["stage"]][0], "first": e2e_wire(stages[sp["stage"]][1][sp["line"]][1])[:sp["cut"]],
+                               "pause_s": sp["pause"], "then": e2e_wire(stages[sp["stage"]][1][sp["line"]][1])[sp["cut"]:]} for sp in case["splits"]]}
+    return {"e2e": True, "via": case["via"], **extra,
+            "lines": {what: [e2e_wire(it) for _, it in items] for what, items in stages},
             "hello": [list(it) for it in case["hello"]], "probe": [list(it) for it in case["probe"]],
             "after": [list(it) for it in case["after"]],
             "stmts": [{"stmt": s["stmt"], "reply": [list(it) for it in s["reply"]]} for s in case["stmts"]]}
@@ -847,12 +952,14 @@ def e2e_run(case, letters, grace=E2E_GRACE, limit=8.0):
     """Drive one real writer through the session.  Returns (obs, sent, marks, notes): `obs[k]` = the readings after
     stage k (None from the first stage the session did not reach), `sent` = every line the device put on the wire, in
     order, `marks[k]` = how many of them had been sent when stage k was complete."""
+    import threading
     import time
 
     from . import sim_c16 as sim
 
     stages = e2e_stages(case)
     expected = e2e_expected(case)
+    splits = e2e_split_map(case)
     replies = {s["stmt"]: k + 1 for k, s in enumerate(case["stmts"])}
 
     class Scripted(sim.Session):
@@ -861,16 +968,24 @@ def e2e_run(case, letters, grace=E2E_GRACE, limit=8.0):
         def __init__(self, *a, **k):
             super().__init__(*a, **k)
             self.sent, self.marks, self.reads, self.held = [], {}, 0, None
+            self.wire = threading.RLock()  # one writer on the wire at a time: nothing lands between the two segments of a line
 
-        def put_lines(self, lines, stage):
-            for ln in lines:
-                self.sent.append(ln)
-                if self.kind == "socket":
-                    self.tcp.put(ln.encode())
-                else:
-                    self.io().rxq.put(ln.encode())
-            if stage is not None:
-                self.marks[stage] = len(self.sent)
+        def put_lines(self, lines, stage, at=None):
+            """`at` = (stage, index of lines[0] in it) when these are lines of the script (they may be split)"""
+            with self.wire:
+                for j, ln in enumerate(lines):
+                    sp = splits.get((at[0], at[1] + j)) if at else None
+                    self.sent.append(ln)
+                    if self.kind != "socket":
+                        self.io().rxq.put(ln.encode())
+                    elif sp and 0 < sp["cut"] < len(ln) - 1:
+                        self.tcp.put(ln[:sp["cut"]].encode())
+                        time.sleep(sp["pause"])
+                        self.tcp.put(ln[sp["cut"]:].encode())
+                    else:
+                        self.tcp.put(ln.encode())
+                if stage is not None:
+                    self.marks[stage] = len(self.sent)
 
         def _on_tx(self, i, line, ok):
             super()._on_tx(i, line, ok)
@@ -885,15 +1000,15 @@ def e2e_run(case, letters, grace=E2E_GRACE, limit=8.0):
             lines = [e2e_wire(it) for _, it in stages[k][1]]
             cut = e2e_hold_index(lines) if k == 0 else None
             if cut is None:
-                return self.put_lines(lines, k)
-            self.put_lines(lines[:cut], None)
-            self.held = lines[cut:]
+                return self.put_lines(lines, k, at=(k, 0))
+            self.put_lines(lines[:cut], None, at=(k, 0))
+            self.held, self.held_at = lines[cut:], (k, cut)
 
         def release_held(self):
             snap = self.snapshot()
             if self.held is not None and snap.get("printing") == "1" and snap.get("clear") == "0":
                 lines, self.held = self.held, None
-                self.put_lines(lines, 0)
+                self.put_lines(lines, 0, at=self.held_at)
 
     S = Scripted(case["via"], [s["stmt"] + "\n" for s in case["stmts"]], False, gated=True)
     obs, notes, late = [], [], False
@@ -986,7 +1101,7 @@ def run_e2e(R, cases, label):
             raise core.Infra(f"end-to-end session did not complete: {notes} case {e2e_repr(c)}")
         stage0 = [it for _, it in e2e_stages(c)[0][1]]
         R.case(e2e_repr(c), nontrivial=len(e2e_expected(c)[-1][0]) >= 2, validated=False)
-        R.count(label, "e2e-via:" + c["via"], f"e2e-statements:{len(c['stmts'])}")
+        R.count(label, "e2e-via:" + c["via"], f"e2e-statements:{len(c['stmts'])}", *e2e_split_tags(c))
         R.count(*["e2e-report:" + w for w, tag in (("before-the-probe-answer", "hello"), ("answering-the-probe", "probe"), ("behind-the-probe-answer", "after"))
                   if any(k == "report" for k, _ in c[tag])])
         if stage0 and stage0[0][0] == "report":
@@ -1095,6 +1210,13 @@ E2E_CORPUS = [
      "after": [("report", _status("Run", "1.500", "2.000", "-3.000", "500", "8000"))],
      "stmts": [{"stmt": "G38.2 Z-5 F50", "reply": [("report", _rep("grbl-probe", [("P", "p", [_d("4.000"), _d("5.000"), _d("-0.125")], True)], trail="\r", frame=("[", "|", "]"))),
                                                      ("plain", "ok")]}]},
+    # a Marlin board behind a serial-to-wifi bridge that forwards the UART bytes as they trickle in: the temperature
+    # auto-report it starts with arrives cut inside a number, the position report behind the probe's answer cut in front
+    # of its step counts - each is one report
+    {"e2e": True, "via": "socket", "hello": [("report", _temp("203.75", "58.5"))], "probe": [("plain", "ok")],
+     "after": [("report", _pos("12.50", "-3.25", "0.40", "7.125"))],
+     "stmts": [{"stmt": "M105", "reply": [("report", _temp("204.0", "59.25", ok=True))]}],
+     "splits": [{"stage": 0, "line": 0, "cut": 4, "pause": 0.3}, {"stage": 0, "line": 2, "cut": 14, "pause": 0.35}]},
 ]
 
 
@@ -1110,7 +1232,9 @@ def _run(R: core.Run):
               "40 % of the sequences delivered under an application's logging configuration (root / package / module logger at DEBUG, INFO "
               "or WARNING, formatting or dropping handler, switched on before the writer exists or between two lines); "
               "(c) a few end-to-end sessions: a connected SerialWriter / SocketWriter and a scripted device reporting before it has read "
-              "anything, in its answer to the connect probe, right behind it, and in answer to 1-2 written statements; "
+              "anything, in its answer to the connect probe, right behind it, and in answer to 1-2 written statements; a few more over "
+              "the socket where 1-2 reports reach the host in two TCP segments (cut inside the line, mostly inside a number) "
+              f"{E2E_SPLIT_PAUSE[0]}-{E2E_SPLIT_PAUSE[1]} s apart, the split report's place (before the probe, its answer, behind it, a statement's reply) taking turns; "
               "non-trivial = the sequence reports >= 2 different letters; distinct by hash")
     R.assumptions = [
         "device messages are ASCII (Python's \\d, float(), str.strip and str.lower also know non-ASCII digits, blanks and case pairs)",
@@ -1134,6 +1258,9 @@ def _run(R: core.Run):
     run_reports(R, garbage, "malformed")
     run_e2e(R, E2E_CORPUS, "e2e-corpus")
     run_e2e(R, [gen_e2e_case(R.rng) for _ in range(R.n(4, 60))], "e2e")
+    # socket sessions with reports cut in two segments: every split costs its pause, so there are few of them and the
+    # places take turns (quick: the probe's answer and a statement's reply here, the other two in the corpus session)
+    run_e2e(R, [gen_e2e_split_case(R.rng, E2E_PLACES[j % len(E2E_PLACES)]) for j in range(R.n(2, 16))], "e2e-split")
     if R.broken:
         R.search_batches += 1
         for _ in range(R.n(6000, 30000)):
@@ -1173,6 +1300,10 @@ def _replay(data):
     if case.get("e2e"):
         c = {"e2e": True, "via": case["via"], "stmts": [{"stmt": x["stmt"], "reply": [tuple(it) for it in x["reply"]]} for x in case["stmts"]],
              **{k: [tuple(it) for it in case[k]] for k in ("hello", "probe", "after")}}
+        if case.get("splits"):
+            c["splits"] = [dict(sp) for sp in case["splits"]]
+            for seg in e2e_repr(c).get("segments", []):
+                print("split:", seg)
         letters = e2e_letters(c)
         obs, sent, marks, notes = e2e_run(c, letters)
         mo = [model_to_double(x) for x in core.run_model(MODE, ["d " + letters + " | " + " | ".join(cps(ln) for ln in sent)])[0].split(" ; ")]
